@@ -350,7 +350,10 @@ def regenerate():
     data = probe()
     names, groups, stmt_rows, type_rows, classes, nlines = build_rows(data)
     changed = write_if_changed(GEN, render(names, groups, stmt_rows, type_rows, classes))
-    stats = {"statement_entries": len(stmt_rows) // 2, "statement_rows (c + cxx)": len(stmt_rows), "code_lines_classified": nlines,
+    strict = sorted({names[r["name"]] for r in stmt_rows
+                     if any(x not in r["relFail"] and x not in (DESCR, CONVOBJ) for x in r["acquires"])})
+    stats = {"entries_whose_returned_object_is_not_released_in_fail (informational, see C06)": strict,
+             "statement_entries": len(stmt_rows) // 2, "statement_rows (c + cxx)": len(stmt_rows), "code_lines_classified": nlines,
              "acquiring_rows": sum(1 for r in stmt_rows if r["acquires"]), "type_rows": len(type_rows),
              "format_units": [u for u, _ in classes], "line_patterns": len(LINE_PATTERNS)}
     return changed, stats, {"types": data["types"], "classes": dict(classes)}
